@@ -455,9 +455,7 @@ def conformable_faults(s):
     """Domain of TraceFlwF.tla (FlwF.tla): as conformable(), restricted to the effects FlwF models - no symlink - and to
     the calls whose error handling it transcribes."""
     c = s.get("cfg", {})
-    if not _conf_cfg(c) or s.get("resume") or s.get("virt") is False:
-        return False
-    if c.get("link"):
+    if not _conf_cfg({k: v for k, v in c.items() if k != "link"}) or s.get("resume") or s.get("virt") is False:
         return False
     live = False
     for st in s.get("steps", []):
